@@ -10,10 +10,13 @@ CUSTOM = {
     "P2": ({"p2-a": "{integer}", "p2-c": "{absolute-size}"}, {"integer": "p2i", "absolute-size": "p2s"}),
     "P3": ({"p3-b": "{mynew}", "p3-a": "{integer}"}, {"mynew": "p3n"}),
     "P4": ({"p4-a": "{integer}", "z-index": "p4z"}, {}),
+    "P1x": ({"p1-a": "{integer}", "p1-b": "p1x"}, None),      # registered under the name P1, no macros argument at all
 }
+REALNAME = {"P1x": "P1"}
+VARIANT = {}      # real name -> abstract id currently registered under it (per trace)
 # probes: (id, property, candidate literals).  The accepted subset identifies the macro version a property is compiled with.
 INT_LITS = ["7", "p1i", "p2i"]
-NEW_LITS = ["p1n", "p3n"]
+NEW_LITS = ["p1n", "p3n", "p1x"]
 ABS_LITS = ["xx-large", "p2s"]
 PROBES = [
     ("P1.a", "p1-a", INT_LITS), ("P1.b", "p1-b", NEW_LITS), ("P2.a", "p2-a", INT_LITS), ("P2.c", "p2-c", ABS_LITS),
@@ -41,7 +44,7 @@ def abstract_names(reg):
                 out.append("B")
                 seenB = True
         else:
-            out.append(n)
+            out.append(VARIANT.get(n, n))
     return out
 
 
@@ -66,26 +69,32 @@ def project(reg):
     byprof = []
     for n in names:
         if n != "B":
-            out, r = outcome(lambda: sorted(reg.propertiesByProfile(n)))
+            out, r = outcome(lambda: sorted(reg.propertiesByProfile(REALNAME.get(n, n))))
             byprof.append({"p": n, "props": r if out == "ok" else [out]})
     d = reg._defaultProfiles
     return {"names": names, "nreal": len(reg.profiles), "versions": versions, "known": known, "byprofile": byprof,
-            "validateAgree": vwp_ok, "defaults": "none" if not d else (d[0] if d[0] in CUSTOM else "B")}
+            "validateAgree": vwp_ok, "defaults": "none" if not d else (VARIANT.get(d[0], d[0]) if d[0] in CUSTOM else "B")}
 
 
 def apply(reg, a):
     op = a["op"]
     if op == "add":
         props, macros = CUSTOM[a["p"]]
-        return outcome(lambda: reg.addProfile(a["p"], dict(props), dict(macros)))
+        real = REALNAME.get(a["p"], a["p"])
+        VARIANT[real] = a["p"]
+        if macros is None:
+            return outcome(lambda: reg.addProfile(real, dict(props)))
+        return outcome(lambda: reg.addProfile(real, dict(props), dict(macros)))
     if op == "addbatch":
-        batch = [(p, dict(CUSTOM[p][0]), dict(CUSTOM[p][1])) for p in a["ps"]]
+        for p in a["ps"]:
+            VARIANT[REALNAME.get(p, p)] = p
+        batch = [(REALNAME.get(p, p), dict(CUSTOM[p][0]), dict(CUSTOM[p][1] or {})) for p in a["ps"]]
         return outcome(lambda: reg.addProfiles(batch))
     if op == "addbuiltin":
         return outcome(lambda: reg.addProfiles(builtin_batch(reg)))
     if op == "remove":
         try:
-            reg.removeProfile(a["p"])
+            reg.removeProfile(REALNAME.get(a["p"], a["p"]))
             return "ok", None
         except profiles_mod.NoSuchProfileException:
             return "NoSuchProfile", None
@@ -95,13 +104,14 @@ def apply(reg, a):
         return outcome(lambda: reg.removeProfile(all=True))
     if op == "setdefaults":
         d = a["d"]
-        val = None if d == "none" else (profiles_mod.Profiles.CSS_LEVEL_2 if d == "B" else d)
+        val = None if d == "none" else (profiles_mod.Profiles.CSS_LEVEL_2 if d == "B" else REALNAME.get(d, d))
         return outcome(lambda: setattr(reg, "defaultProfiles", val))
     raise ValueError(op)
 
 
 def run_trace(item):
     init()
+    VARIANT.clear()
     reg = profiles_mod.Profiles(log=cssutils.log)
     tr = {"id": item["id"], "init": project(reg), "steps": []}
     for a in item["actions"]:
